@@ -401,6 +401,33 @@ inline model::MPoly polygon(Ctx& c, bool allow_big) {
             p.hint = 1;
             p.ccenter = ctr;
             p.cradius = (dg_t)(rad * 10);
+            if (r.chance(0.3)) {
+                // near-circles that are not circles: every vertex test of a circle detector but one still passes
+                auto detie = [](dg_t v) { return llabs(v % 10) == 5 ? v + 1 : v; };
+                switch (r.below(3)) {
+                    case 0: {  // an arc closed by its chord: all vertices on the circle, one long edge
+                        size_t keep = (size_t)n * (size_t)r.range(55, 95) / 100;
+                        if (keep < 8) keep = 8;
+                        if (keep < p.pts.size()) p.pts.resize(keep);
+                    } break;
+                    case 1: {  // one vertex off the circle
+                        size_t k = r.below(p.pts.size());
+                        double f = 1.0 + (double)r.range(2, 30) * (r.chance(0.5) ? 1.0 : -1.0) / rad;
+                        p.pts[k] = Pt{detie(ctr.x + (dg_t)llround((double)(p.pts[k].x - ctr.x) * f)),
+                                      detie(ctr.y + (dg_t)llround((double)(p.pts[k].y - ctr.y) * f))};
+                        if (c.cfg.force_ongrid) p.pts[k] = Pt{canon::rgrid(p.pts[k].x) * 10, canon::rgrid(p.pts[k].y) * 10};
+                    } break;
+                    default: {  // a slightly flattened circle
+                        static const double es[] = {0.004, 0.02, 0.08};
+                        double f = 1.0 - es[r.below(3)];
+                        for (auto& q : p.pts) {
+                            q.y = detie(ctr.y + (dg_t)llround((double)(q.y - ctr.y) * f));
+                            if (c.cfg.force_ongrid) q.y = canon::rgrid(q.y) * 10;
+                        }
+                    }
+                }
+                p.hint = 0;
+            }
         } break;
         case 10: {  // above the GDSII record limit
             int n = (int)r.range(8191, 8600);
